@@ -88,6 +88,7 @@ type Engine struct {
 	lastPanicPos string
 	narr        int
 	nrand       int
+	pools       map[*Value][]Value // sync.Pool contents
 
 	// threads
 	threads []*Thread
